@@ -8,6 +8,7 @@ import (
 	"os"
 	"runtime"
 	"sort"
+	"strings"
 	"sync"
 
 	"verif/lib/vlib"
@@ -129,6 +130,12 @@ func main() {
 	var jobs []job
 	for _, g := range families(run.Thorough()) {
 		jobs = append(jobs, job{g, "hdl"}, job{g, "sim"})
+		// the simulator with one slow opcode, on the families with processor-to-processor bonds
+		if g.Name == "pipe2" || g.Name == "join-of-pipes" || (run.Thorough() && (g.Name == "pipe3" || g.Name == "diamond")) {
+			for _, d := range []string{"inc=2", "inc=4", "i2rw=3", "r2owa=3", "add=3", "j=3"} {
+				jobs = append(jobs, job{g, "sim+delay(" + d + ")"})
+			}
+		}
 	}
 	outs := make([]bOutcome, len(jobs))
 	sem := make(chan struct{}, 6)
@@ -168,12 +175,12 @@ func main() {
 		sort.Strings(keys)
 		for _, k := range keys {
 			v := o.violations[k]
-			run.Report(fmt.Sprintf("C02|stream|%s|%s|%s", o.backend, fo, v.class),
+			run.Report(fmt.Sprintf("C02|stream|%s|%s|%s", sigBackend(o.backend), fo, v.class),
 				fmt.Sprintf("[graph %s, %s back end] %s; environment schedule per tick (inputs: O offer / s stall, outputs: A ack / w wait): %s", o.g.Name, o.backend, v.detail, labelsString(v.path)),
 				map[string]any{"kind": "stream", "graph": o.g, "backend": o.backend, "schedule": v.path, "horizon": horizon, "stalls": stalls})
 		}
 		if o.stuckStates > 0 {
-			run.Report(fmt.Sprintf("C02|stream|%s|%s|cannot-finish", o.backend, fo),
+			run.Report(fmt.Sprintf("C02|stream|%s|%s|cannot-finish", sigBackend(o.backend), fo),
 				fmt.Sprintf("[graph %s, %s back end] %d reachable states from which the remaining values can never be delivered; shortest: %s", o.g.Name, o.backend, o.stuckStates, labelsString(o.stuckSample)),
 				map[string]any{"kind": "stream", "graph": o.g, "backend": o.backend, "schedule": o.stuckSample, "horizon": horizon, "stalls": stalls})
 		}
@@ -188,6 +195,14 @@ func main() {
 	run.Assume("stream obligation: both back ends are compared with a timing-independent dataflow reference (each firing consumes one value per input, emits sum+1 on every output); equality with the same reference implies equality with each other")
 	run.Assume("environment is protocol abiding (4-phase valid/received) with a bounded number of delays per port; HDL semantics by /verif/engines/vsim")
 	run.Finish()
+}
+
+// sigBackend: the signature names the back end, not the particular delay assignment.
+func sigBackend(b string) string {
+	if strings.Contains(b, "+delay(") {
+		return "sim,opcode-delays"
+	}
+	return b
 }
 
 func doReplay(run *vlib.Run) {
